@@ -37,7 +37,8 @@ type validation struct {
 // ContentType validates the content type of a request
 func validateContentType(allowed []string, actual string) error {
 	if len(allowed) == 0 {
-		return nil
+		// neither the operation nor the API names a media type: no body is admitted
+		return errors.InvalidContentType(actual, allowed)
 	}
 	mt, _, err := mime.ParseMediaType(actual)
 	if err != nil {
